@@ -309,3 +309,40 @@ Proof.
   intros Hcls fuel p e M H. unfold run_runtime, run_chia. rewrite flags_of_N_minus.
   apply runtime_eq_chia_all; assumption.
 Qed.
+
+(* ---- the class left out above is a genuine difference ----
+   (/ (q . 0x0101..01 [2049 bytes]) (q . 3)): under DISABLE_OP without NEW_COST_MODEL op_div
+   rejects a dividend longer than 2048 bytes; RuntimeDialect hands DISABLE_OP to op_div,
+   ChiaDialect built without DISABLE_OP does not. *)
+Definition div_2049 : sexp :=
+  Cons (Atom [19]) (Cons (Cons (Atom [1]) (Atom (repeat 1 2049))) (Cons (Cons (Atom [1]) (Atom [3])) (Atom []))).
+
+Theorem minus_disable_op_refuted P :
+  has BIT_DISABLE_OP BIT_DISABLE_OP = true /\ has BIT_DISABLE_OP BIT_NEW_COST_MODEL = false /\
+  run_program (common_dialect P (flags_of_N BIT_DISABLE_OP)) 100 div_2049 (Atom []) 0 = Err (InvalidOpArg 0) /\
+  run_runtime P 100 BIT_DISABLE_OP div_2049 (Atom []) 0 = Err (InvalidOpArg 0) /\
+  exists v, run_chia P 100 (N.ldiff BIT_DISABLE_OP GC_DISABLE_OP_BITS) div_2049 (Atom []) 0 = Ok (29709, v).
+Proof.
+  split; [reflexivity|]. split; [reflexivity|].
+  split; [vm_compute; reflexivity|]. split; [vm_compute; reflexivity|].
+  eexists. vm_compute. reflexivity.
+Qed.
+
+(* under NEW_COST_MODEL the same program agrees (DISABLE_OP is not read) *)
+Example div_2049_new_cost_model P :
+  let w := N.lor BIT_DISABLE_OP (N.lor BIT_NEW_COST_MODEL (N.lor BIT_LIMITS BIT_ENABLE_GC)) in
+  exists v, run_runtime P 100 w div_2049 (Atom []) 0 = Ok (124225, v) /\
+            run_chia P 100 (N.ldiff w GC_DISABLE_OP_BITS) div_2049 (Atom []) 0 = Ok (124225, v).
+Proof. eexists. split; vm_compute; reflexivity. Qed.
+
+(* the other side of the DISABLE_OP class: ChiaDialect's dispatch disables modpow, RuntimeDialect's
+   does not. (modpow (q . 2) (q . 77) (q . 1000003)) *)
+Definition modpow_2_77 : sexp :=
+  Cons (Atom [60]) (Cons (Cons (Atom [1]) (Atom [2])) (Cons (Cons (Atom [1]) (Atom [77]))
+    (Cons (Cons (Atom [1]) (Atom [15; 66; 67])) (Atom [])))).
+
+Theorem modpow_disabled_differs P :
+  run_runtime P 100 BIT_DISABLE_OP modpow_2_77 (Atom []) 0 = Ok (17321, Atom [12; 128; 88]) /\
+  run_chia P 100 BIT_DISABLE_OP modpow_2_77 (Atom []) 0 = Err Unimplemented /\
+  run_chia P 100 0 modpow_2_77 (Atom []) 0 = Ok (17321, Atom [12; 128; 88]).
+Proof. vm_compute. repeat split. Qed.
